@@ -28,14 +28,14 @@ Theorem C09_T_symmetric_tridiagonal_any_arith (F : Type) (A : Arith F) (g : lz_a
         (forall i j, (i.+1 < j)%N || (j.+1 < i)%N -> mget A T i j = a0 A)].
 Proof. exact: lanczos_T_symmetric_tridiagonal_gen. Qed.
 
-(* 2. Trimming: 2 <= m <= min(max_iter, n); shapes of q_mat / t_mat (leading dimension dropped iff one start
+(* 2. Trimming: 2 <= m <= min(max_iter, n) on the pinned source, 1 <= m on the repaired one (flag g_first_guard); shapes of q_mat / t_mat (leading dimension dropped iff one start
       vector); one n x m matrix Q and one m x m matrix T per (start vector, batch member). *)
 Theorem C09_trim_shapes_any_arith (F : Type) (A : Arith F) (g : lz_args F) o :
   lanczos_tridiag A g = Ok o ->
   exists nvec init, lz_start g = Ok (nvec, init) /\
     let n := g_n g in let m := o_m o in
     let lead := if nvec == 1%N then [::] else [:: nvec] in
-    [/\ (2 <= m <= minn (g_max_iter g) n)%N,
+    [/\ ((if g_first_guard g then 1 else 2) <= m <= minn (g_max_iter g) n)%N,
         o_qshape o = lead ++ g_batch g ++ [:: n; m] /\ o_tshape o = lead ++ g_batch g ++ [:: m; m],
         size (o_Q o) = (nvec * prodn (g_batch g))%N /\ size (o_T o) = (nvec * prodn (g_batch g))%N,
         (forall idx, (idx < size (o_Q o))%N -> let Q := nth [::] (o_Q o) idx in
@@ -44,8 +44,8 @@ Theorem C09_trim_shapes_any_arith (F : Type) (A : Arith F) (g : lz_args F) o :
              size T = m /\ forall i, (i < m)%N -> size (nth [::] T i) = m)].
 Proof. exact: lanczos_trim_shapes_gen. Qed.
 
-(* 3. Error paths: non-callable closure; the three debug-mode argument checks; and -- a transcription of the
-      defect recorded as known finding C09-budget-one-indexerror -- IndexError whenever min(max_iter, n) < 2. *)
+(* 3. Error paths: non-callable closure; the three debug-mode argument checks; IndexError whenever min(max_iter, n) < 2
+      on the pinned source (known finding C09-budget-one-indexerror, transcribed), < 1 on the repaired one. *)
 Theorem C09_guards_any_arith (F : Type) (A : Arith F) (g : lz_args F) :
   [/\ ~~ g_callable g -> lanczos_tridiag A g = Err ErrNotCallable,
       (forall iv, g_callable g -> g_init g = Some iv -> g_debug g -> ~~ i_dtype_ok iv ->
@@ -54,9 +54,22 @@ Theorem C09_guards_any_arith (F : Type) (A : Arith F) (g : lz_args F) :
          lanczos_tridiag A g = Err ErrBatchShape),
       (forall iv, g_callable g -> g_init g = Some iv -> g_debug g -> i_dtype_ok iv -> g_batch g = i_batch iv ->
          ~~ i_onedim iv -> g_n g != i_n iv -> lanczos_tridiag A g = Err ErrMatrixShape) &
-      (forall nvec init, g_callable g -> lz_start g = Ok (nvec, init) -> (minn (g_max_iter g) (g_n g) < 2)%N ->
+      (forall nvec init, g_callable g -> lz_start g = Ok (nvec, init) ->
+         (minn (g_max_iter g) (g_n g) < (if g_first_guard g then 1 else 2))%N ->
          lanczos_tridiag A g = Err ErrIndex)].
 Proof. exact: lanczos_guards_gen. Qed.
+
+(* 3a. The repaired source (fix C09-degenerate-budget-and-start, flag g_first_guard; which version the tree under test
+       contains is probed on every run) serves a budget of one iteration and start vectors that all span an invariant
+       subspace (every beta_0 <= 1e-6): it returns after the first step with a single Lanczos vector, Q = q_0,
+       T = [alpha_0].  Theorems 4-8, 14, 15 cover that outcome as well (m = 1). *)
+Theorem C09_first_step_stop_any_arith (F : Type) (A : Arith F) (g : lz_args F) nvec init :
+  g_callable g -> lz_start g = Ok (nvec, init) -> g_first_guard g -> (0 < minn (g_max_iter g) (g_n g))%N ->
+  (minn (g_max_iter g) (g_n g) < 2)%N
+  || ~~ has (fun b => altb A (g_brk g) (aabs A b))
+            (lz_beta0 A (g_n g) (prodn (g_batch g) * nvec) (g_mm g) init) ->
+  exists2 o, lanczos_tridiag A g = Ok o & o_m o = 1%N.
+Proof. exact: lanczos_first_step_stop_gen. Qed.
 
 (* 3b. A 1-D init_vecs: IndexError (from init_vecs.size(-2) in debug mode, from torch.norm(.., dim=-2) otherwise).
        root_inv_decomposition's own argument check (theorem 18) lets a 1-D initial vector of the right length through,
@@ -371,22 +384,48 @@ Theorem C09_postprocess_best_probe (F : rcfType) (n k t : nat) (As Vs : seq (mat
 Proof. exact: postprocess_best. Qed.
 
 (* 17. Shapes handed back by the consumers (pure list reasoning: no arithmetic involved), for every number of probes,
-       batch shape, n > 1, m > 1: RootDecomposition.forward returns ( [nprobe,] *batch, n, m ), Diagonalization.forward
-       ( *batch, m ) and ( *batch, n, m ), _postprocess_lanczos_root_inv_decomp ( *batch, n, m ) -- EXCEPT that a
-       leading batch dimension of size 1 is squeezed away (root / diagonalization: single probe and >= 2 batch
-       dimensions; post-processing: any batch).  The exceptions are known finding C09-leading-singleton-batch. *)
+       batch shape, n > 1, m > 1.  PINNED source (flag false): RootDecomposition.forward returns ( [nprobe,] *batch, n, m ),
+       Diagonalization.forward ( *batch, m ) and ( *batch, n, m ), _postprocess_lanczos_root_inv_decomp ( *batch, n, m )
+       -- EXCEPT that a leading batch dimension of size 1 is squeezed away (root / diagonalization: single probe and
+       >= 2 batch dimensions; post-processing: any batch): known finding C09-leading-singleton-batch.  REPAIRED source
+       (flag true): the specified shapes, always.  [..._on_tree]: for the versions the tree under test contains. *)
 Theorem C09_consumer_shapes (nprobe : nat) (batch : seq nat) (n m : nat) :
   (0 < nprobe)%N -> (1 < m)%N -> (1 < n)%N ->
-  [/\ (root_forward_shape (lanczos_lead nprobe batch) n m == lanczos_lead nprobe batch ++ [:: n; m])
+  [/\ (root_forward_shape false nprobe (lanczos_lead nprobe batch) n m == lanczos_lead nprobe batch ++ [:: n; m])
         = ~~ [&& nprobe == 1%N, (1 < size batch)%N & head 0%N batch == 1%N],
-      (diag_forward_shape batch n m == (batch ++ [:: m], batch ++ [:: n; m]))
+      (diag_forward_shape false batch n m == (batch ++ [:: m], batch ++ [:: n; m]))
         = ~~ ((1 < size batch)%N && (head 0%N batch == 1%N)) &
-      (postprocess_shape batch n m == batch ++ [:: n; m]) = ~~ ((0 < size batch)%N && (head 0%N batch == 1%N))].
+      (postprocess_shape false batch n m == batch ++ [:: n; m]) = ~~ ((0 < size batch)%N && (head 0%N batch == 1%N))].
 Proof.
 move=> np0 m1 n1; split.
 - exact: root_forward_shape_spec.
 - exact: diag_forward_shape_spec.
 - exact: postprocess_shape_spec.
+Qed.
+
+Theorem C09_consumer_shapes_repaired (nprobe : nat) (batch : seq nat) (n m : nat) :
+  [/\ root_forward_shape true nprobe (lanczos_lead nprobe batch) n m = lanczos_lead nprobe batch ++ [:: n; m],
+      diag_forward_shape true batch n m = (batch ++ [:: m], batch ++ [:: n; m]) &
+      postprocess_shape true batch n m = batch ++ [:: n; m]].
+Proof. exact: fixed_shapes_spec. Qed.
+
+Theorem C09_consumer_shapes_on_tree (nprobe : nat) (batch : seq nat) (n m : nat) :
+  (0 < nprobe)%N -> (1 < m)%N -> (1 < n)%N ->
+  [/\ (root_forward_shape root_shape_fixed_lit nprobe (lanczos_lead nprobe batch) n m
+         == lanczos_lead nprobe batch ++ [:: n; m])
+        = root_shape_fixed_lit || ~~ [&& nprobe == 1%N, (1 < size batch)%N & head 0%N batch == 1%N],
+      (diag_forward_shape diag_shape_fixed_lit batch n m == (batch ++ [:: m], batch ++ [:: n; m]))
+        = diag_shape_fixed_lit || ~~ ((1 < size batch)%N && (head 0%N batch == 1%N)) &
+      (postprocess_shape post_shape_fixed_lit batch n m == batch ++ [:: n; m])
+        = post_shape_fixed_lit || ~~ ((0 < size batch)%N && (head 0%N batch == 1%N))].
+Proof.
+move=> np0 m1 n1.
+have [P1 P2 P3] := C09_consumer_shapes batch np0 m1 n1.
+have [R1 R2 R3] := C09_consumer_shapes_repaired nprobe batch n m.
+split.
+- by case: root_shape_fixed_lit; rewrite ?R1 ?eqxx ?P1.
+- by case: diag_shape_fixed_lit; rewrite ?R2 ?eqxx ?P2.
+- by case: post_shape_fixed_lit; rewrite ?R3 ?eqxx ?P3.
 Qed.
 
 (* 18. root_inv_decomposition's check of initial_vectors.shape (operators/_linear_operator.py lines 2237-2254) raises
@@ -420,8 +459,8 @@ Theorem C09_slq_quadrature (F : rcfType) (n m : nat) (Q : 'M[F]_(n, m.+1)) (T V 
 Proof. exact: slq_quadrature. Qed.
 
 Theorem C09_leading_singleton_batch_refuted :
-  root_forward_shape (lanczos_lead 1 [:: 1; 2]%N) 5 5 = [:: 2; 5; 5]%N
-  /\ (diag_forward_shape [:: 1; 2]%N 5 5).2 = [:: 2; 5; 5]%N /\ postprocess_shape [:: 1]%N 6 4 = [:: 6; 4]%N.
+  root_forward_shape false 1 (lanczos_lead 1 [:: 1; 2]%N) 5 5 = [:: 2; 5; 5]%N
+  /\ (diag_forward_shape false [:: 1; 2]%N 5 5).2 = [:: 2; 5; 5]%N /\ postprocess_shape false [:: 1]%N 6 4 = [:: 6; 4]%N.
 Proof. by []. Qed.
 
 (* Non-vacuity: on A = [[1,1],[1,1]], start vector e_1, budget 2 (over any real closed field, any tol / threshold)
@@ -436,7 +475,19 @@ Example C09_hypotheses_satisfiable (F : rcfType) (tol brk : F) :
         /\ (mx_of 2 2 (exA F))^T = mx_of 2 2 (exA F)].
 Proof. exact: ex_satisfiable. Qed.
 
-(* Non-vacuity of the breakdown clause of theorem 14: A = I_2, start e_1, budget 2: beta_0 = 0 but m = 2 (with two
+(* ... and on the REPAIRED source (both flags set), for every threshold below beta_0 = 1. *)
+Example C09_hypotheses_satisfiable_repaired (F : rcfType) (tol brk : F) : brk < 1 ->
+  exists o,
+    [/\ lanczos_tridiag (ArR F) (exGr tol brk) = Ok o /\ lz_start (exGr tol brk) = Ok (1%N, exInit F),
+        (0 < size (o_Q o))%N /\ o_m o = g_n (exGr tol brk),
+        cv 2 (exInit F) (col_of (prodn (g_batch (exGr tol brk))) 1 0) != 0,
+        (forall j, (j.+1 < o_m o)%N -> mget (ArR F) (nth [::] (o_T o) 0) j j.+1 != 0) &
+        (forall X, cv 2 (g_mm (exGr tol brk) X) 0 = mx_of 2 2 (exA F) *m cv 2 X 0)
+        /\ (mx_of 2 2 (exA F))^T = mx_of 2 2 (exA F)].
+Proof. exact: ex_satisfiable_repaired. Qed.
+
+(* Non-vacuity of the breakdown clause of theorem 14 (on the pinned source; on the repaired one the same situation
+   needs a second column that keeps the loop going -- exercised by the mixed-batch cells of the correspondence): A = I_2, start e_1, budget 2: beta_0 = 0 but m = 2 (with two
    iterations the loop has no break test), so w = 1 < m, T[0][1] = 0 and all other hypotheses hold. *)
 Example C09_breakdown_prefix_satisfiable (F : rcfType) (tol brk : F) :
   exists o,
